@@ -59,13 +59,54 @@ fn enc_events(out: &mut Out, case: &str, key: u32, buf: &[u8]) {
     decrypt_block(&mut dec, key);
     let dd = if enc.is_empty() { 0 } else { decrypt_dword(enc[0], key) };
     out.ev(json!({"ev":"Enc","case":case,"key":w(key),"w":ws(&words),"enc":ws(&enc),"dec":ws(&dec),"dd":w(dd)}));
-    // byte level wrappers, any length
+    // byte level wrappers, any length, at every alignment of the slice start relative to a dword
+    // boundary (the API takes &mut [u8]; nothing entitles it to an aligned start)
     let b = ArchiveBuilder::new();
-    let mut e = buf.to_vec();
+    for off in 0..4usize {
+        let mut backing = vec![0u8; buf.len() + 8];
+        let base = (4 - (backing.as_ptr() as usize % 4)) % 4 + off;
+        backing[base..base + buf.len()].copy_from_slice(buf);
+        b.encrypt_data(&mut backing[base..base + buf.len()], key);
+        let e = backing[base..base + buf.len()].to_vec();
+        decrypt_file_data(&mut backing[base..base + buf.len()], key);
+        let d = backing[base..base + buf.len()].to_vec();
+        out.ev(json!({"ev":"EncBytes","case":case,"key":w(key),"off":off,"b":buf,"enc":e,"dec":d}));
+        if buf.len() > 64 && off == 1 {
+            break; // long random buffers: aligned + one unaligned start keep the trace small
+        }
+    }
+}
+
+/// Large buffers (> 1 MiB): the plaintext is a constant byte, so TLC can regenerate it; only probe
+/// words of the ciphertext are logged (first, around every 64 Ki-word boundary passed, last) plus tokens.
+fn enc_big(out: &mut Out, case: &str, key: u32, byte: u8, len: usize) {
+    let b = ArchiveBuilder::new();
+    let plain = vec![byte; len];
+    let mut e = plain.clone();
     b.encrypt_data(&mut e, key);
+    let nwords = len / 4;
+    let mut probes: Vec<usize> = vec![1, 2, nwords - 1, nwords];
+    let mut k = 65536;
+    while k < nwords {
+        probes.extend_from_slice(&[k - 1, k, k + 1, k + 2]);
+        k *= 2;
+    }
+    k = 262144;
+    while k < nwords {
+        probes.extend_from_slice(&[k, k + 1]);
+        k += 262144;
+    }
+    probes.sort();
+    probes.dedup();
+    let pv: Vec<Value> = probes.iter().filter(|&&i| i >= 1 && i <= nwords).map(|&i| {
+        let o = (i - 1) * 4;
+        json!([i, w(u32::from_le_bytes([e[o], e[o + 1], e[o + 2], e[o + 3]]))])
+    }).collect();
+    let tail: Vec<u8> = e[nwords * 4..].to_vec();
     let mut d = e.clone();
     decrypt_file_data(&mut d, key);
-    out.ev(json!({"ev":"EncBytes","case":case,"key":w(key),"b":buf,"enc":e,"dec":d}));
+    out.ev(json!({"ev":"EncBig","case":case,"key":w(key),"byte":byte,"nwords":nwords,"tail":tail,"tailplain":plain[nwords*4..].to_vec(),
+        "probes":pv,"ptok":tok(&plain),"dtok":tok(&d)}));
 }
 
 fn main() {
@@ -195,6 +236,11 @@ fn main() {
                 let len = gi(c, "len") as usize;
                 let buf = gen_buf(gs(c, "cls"), len, &mut rng);
                 enc_events(&mut out, &case, key, &buf);
+            }
+            "enc_big" => {
+                let k = ga(c, "key");
+                let key = ((k[0].as_u64().unwrap() as u32) << 16) | k[1].as_u64().unwrap() as u32;
+                enc_big(&mut out, &case, key, gi(c, "byte") as u8, gi(c, "len") as usize);
             }
             "enc_rand" => {
                 for _ in 0..gi(c, "count") {
